@@ -952,6 +952,33 @@ func method(recv Val, name string, args []Val) (Val, *ctl) {
 		if name == "to_string" {
 			return Display(r), nil
 		}
+	case *ObjV:
+		if !r.Any {
+			break
+		}
+		switch name {
+		case "set":
+			k, ok := args[0].(string)
+			if !ok {
+				return nil, unspec("any-object key")
+			}
+			if _, dup := r.F[k]; !dup {
+				r.Keys = append(r.Keys, k)
+			}
+			r.F[k] = args[1]
+			return NullV{}, nil
+		case "keys":
+			ks := make([]string, 0, len(r.F))
+			for k := range r.F {
+				ks = append(ks, k)
+			}
+			sort.Strings(ks)
+			l := &ListV{}
+			for _, k := range ks {
+				l.Elems = append(l.Elems, k)
+			}
+			return l, nil
+		}
 	case *OptV:
 		switch name {
 		case "is_some":
